@@ -131,6 +131,91 @@ theorem resolvePath_eq (st : StructTable) (path : List String) :
   | nil => intro t v; simp [resolvePath, projPath]
   | cons f r ih => intro t v; simp [resolvePath, projPath, resolve1_eq, ih]
 
+/-! ## static projection of binding expressions -/
+
+theorem projPath_append (st : StructTable) (path : List String) :
+    ∀ (t : Ty) (f : String) (v : J),
+      projPath st t (path ++ [f]) v = proj1 (pathTy st t path) f (projPath st t path v) := by
+  induction path with
+  | nil => intro t f v; simp [projPath, pathTy]
+  | cons g r ih => intro t f v; simp [projPath, pathTy, ih]
+
+theorem proj1_null (t : Ty) (f : String) : proj1 t f .null = .null := by
+  unfold proj1 atBase
+  cases t.arrDim <;> cases t.mapDim <;> simp [mapArr, mapObj, J.field]
+
+theorem lookup_evalFields (st : StructTable) (env : Env) (f : String) (kvs : List (String × Exp)) :
+    (evalFields st env kvs).lookup f = (kvs.lookup f).map (eval st env) := by
+  induction kvs with
+  | nil => simp [evalFields]
+  | cons x xs ih =>
+    obtain ⟨k, e⟩ := x
+    simp only [evalFields, List.lookup_cons]
+    cases (f == k) <;> simp [ih]
+
+mutual
+theorem bp_sound (st : StructTable) (env : Env) (f : String) :
+    ∀ (e : Exp) (t : Ty), wt st env t e = true →
+      eval st env (bindingPath1 f e) = proj1 t f (eval st env e)
+  | .lit j, t, h => by
+    cases j <;> simp [wt] at h
+    simp [bindingPath1, eval, proj1_null]
+  | .arr xs, t, h => by
+    obtain ⟨b, m, n⟩ := t
+    simp only [wt, Bool.and_eq_true, bne_iff_ne, ne_eq] at h
+    cases n with
+    | zero => exact absurd rfl h.1
+    | succ n =>
+      simp only [bindingPath1, eval, proj1_arr]
+      rw [bpList_sound st env f xs ⟨b, m, n⟩ h.2]
+  | .map kvs, t, h => by
+    obtain ⟨b, m, n⟩ := t
+    simp only [wt, Bool.and_eq_true, bne_iff_ne, ne_eq, beq_iff_eq] at h
+    obtain ⟨⟨hn, hm⟩, hk⟩ := h
+    subst hn
+    cases m with
+    | zero => exact absurd rfl hm
+    | succ k =>
+      simp only [bindingPath1, eval, proj1_obj]
+      rw [bpFields_sound st env f kvs ⟨b, 0, k⟩ hk]
+  | .struct kvs, t, h => by
+    obtain ⟨b, m, n⟩ := t
+    simp only [wt, Bool.and_eq_true, beq_iff_eq] at h
+    obtain ⟨hn, hm⟩ := h
+    subst hn; subst hm
+    simp only [bindingPath1, eval, proj1, atBase, mapArr, J.field, lookup_evalFields]
+    cases kvs.lookup f <;> simp [eval]
+  | .self p path, t, h => by
+    simp only [wt, beq_iff_eq] at h
+    subst h
+    simp [bindingPath1, eval, projPath_append]
+  | .ref c path, t, h => by
+    simp only [wt, beq_iff_eq] at h
+    subst h
+    simp [bindingPath1, eval, projPath_append]
+theorem bpList_sound (st : StructTable) (env : Env) (f : String) :
+    ∀ (es : List Exp) (t : Ty), wtList st env t es = true →
+      evalList st env (bpList f es) = (evalList st env es).map (proj1 t f)
+  | [], _, _ => by simp [bpList, evalList]
+  | e :: es, t, h => by
+    simp only [wtList, Bool.and_eq_true] at h
+    simp [bpList, evalList, bp_sound st env f e t h.1, bpList_sound st env f es t h.2]
+theorem bpFields_sound (st : StructTable) (env : Env) (f : String) :
+    ∀ (kvs : List (String × Exp)) (t : Ty), wtFields st env t kvs = true →
+      evalFields st env (bpFields f kvs) = (evalFields st env kvs).map fun kv => (kv.1, proj1 t f kv.2)
+  | [], _, _ => by simp [bpFields, evalFields]
+  | (k, e) :: es, t, h => by
+    simp only [wtFields, Bool.and_eq_true] at h
+    simp [bpFields, evalFields, bp_sound st env f e t h.1, bpFields_sound st env f es t h.2]
+end
+
+theorem evalList_getD (st : StructTable) (env : Env) :
+    ∀ (xs : List Exp) (n : Nat),
+      (evalList st env xs).getD n .null = eval st env (xs.getD n (.lit .null))
+  | [], n => by simp [evalList, eval]
+  | x :: xs, 0 => by simp [evalList]
+  | x :: xs, n+1 => by simpa [evalList] using evalList_getD st env xs n
+
 /-! ## association lists -/
 
 theorem lookup_map_mem {α : Type} (ps : List α) (name : α → String) (h : α → J)
